@@ -72,6 +72,10 @@ func c12Gen(class string, seed uint64, tier string) *vfScenario {
 		if rng.IntN(2) == 0 {
 			sc.Ops = append(sc.Ops, c12RaceOp(rng, ct, P, int(sc.Cfg["size0"])))
 		}
+		if rng.IntN(3) == 0 {
+			// somebody else closes too: exactly one of the Close calls wins, whichever way they interleave
+			sc.Ops = append(sc.Ops, vfOp{K: "close", T: rng.IntN(ntasks)})
+		}
 	case "afterclose":
 		// a few operations, Close, then every method once
 		sc.Ops = c01GenOps(rng, P, M, rng.IntN(3), true)
@@ -154,6 +158,13 @@ func c12RaceOp(rng *rand.Rand, t, P, size int) vfOp {
 		}
 		return vfOp{K: "sync", T: t}
 	case x < 88:
+		// all three origins: an end-relative Seek asks the server for the size
+		switch rng.IntN(3) {
+		case 0:
+			return vfOp{K: "seek", T: t, Off: -int64(rng.IntN(size + 1)), A: 2}
+		case 1:
+			return vfOp{K: "seek", T: t, Off: int64(rng.IntN(3)), A: 1}
+		}
 		return vfOp{K: "seek", T: t, Off: int64(rng.IntN(size + 1)), A: 0}
 	case x < 94:
 		return vfOp{K: "read", T: t, N: 1 + rng.IntN(2*P)}
